@@ -333,12 +333,13 @@ def dist(
         return dist(p.project(q), q)
     if isinstance(p, PointTensor) and isinstance(q, SubspaceTensor):
         return dist(q.project(p), p)
-    if isinstance(p, SubspaceTensor) and isinstance(q, PlaneTensor):
+    if isinstance(p, LineTensor) and isinstance(q, PlaneTensor):
         return dist(q, p)
     if isinstance(p, PlaneTensor) and isinstance(q, LineTensor):
         return dist(p, q.base_point)
-    if isinstance(p, PlaneTensor) and isinstance(q, SubspaceTensor):
-        return dist(p, PointCollection.from_array(q.basis_matrix[0, :]))
+    if isinstance(p, PlaneTensor) and isinstance(q, PlaneTensor):
+        # the distance to any finite point of the other plane, e.g. the projection of the origin
+        return dist(p, q.project(Point(*[0] * q.dim)))
 
     from geometer.shapes import PolygonTensor, Polyhedron, SegmentTensor
 
